@@ -229,5 +229,5 @@ def jtext(r, depth=3, broken=0.0):
             t = t[:i] + t[i + 1:]                           # one character dropped
         else:
             i = r.randint(0, len(t))
-            t = t[:i] + r.choice(['"', "{", "[", "}", "]", ",", ":", "\\", "-", "t", "n", "/", "\x01"]) + t[i:]
+            t = t[:i] + r.choice(['"', "{", "[", "}", "]", ",", ":", "\\", "t", "n", "/", "\x01"]) + t[i:]
     return t.encode("utf-8", "replace")
